@@ -274,6 +274,9 @@ def feats(body, opts, cpy_exc=""):
                 vv = kw["v"]
                 if kw["name"] == "" and not (vv["k"] == "Dict" or (vv["k"] == "T" and vv.get("lit") == "dict") or (vv["k"] == "Name" and vv["id"] in ("m0", "d0"))):
                     F.add("dstar-pairs")
+            if sum(1 for kw in n["kws"] if kw["name"] == "") > 1 or (any(kw["name"] == "" for kw in n["kws"]) and
+                                                                       any(kw["name"] in ("ka", "kb", "k") for kw in n["kws"])):
+                F.add("kw-dup-accepted")      # a keyword may arrive twice
             for a in n["args"]:
                 if a["k"] == "Starred" and not (pure(a["v"]) or a["v"]["k"] in ("List", "Tuple")):
                     F.add("star-uses-add")
@@ -718,7 +721,7 @@ class RandGen:
                 args.append(self.any(d - 1))
         kws = []
         for j in range(nkw):
-            if r.random() < 0.2:
+            if r.random() < 0.2 and not (self.m and any(k.startswith("**") for k in kws)):
                 self.kwn = getattr(self, "kwn", 0) + 1
                 kws.append("**" + r.choice(["m0", self.leaf("{'za%d': 1}" % self.kwn), "{'zb%d': %s}" % (self.kwn, self.any(d - 1))]))
             else:
@@ -982,7 +985,7 @@ def classify(ctx, cases, rej, stats):
             if flag == "unexplained":
                 sig = {"clause": "unexplained", "node": r["kind"], "why": r["why"]}
             if c["masked"]:
-                sig["masked"] = True      # the masked space must be clean: never matches a known entry
+                sig = dict(sig, clause="masked:" + sig["clause"])      # the masked space must be clean: never matches a known entry
             stats["by_clause"][flag] = stats["by_clause"].get(flag, 0) + 1
             ctx.report(sig, "%s [%s: %s]" % (WHAT.get(flag, flag), r["kind"], r["why"]),
                        {"src": c["src"], "opts": c["opts"], "fam": c.get("fam"), "verdict": r})
